@@ -162,6 +162,7 @@ func main() {
 	merge := flag.String("merge", "", "merge hash files matching this glob and print the union size")
 	dumpSeed := flag.Int64("dump", -1, "print the scenario of this run index and exit")
 	realRuns := flag.Int("realruns", 0, "real-runtime mode (only when built with -tags passthrough): execute this many scenarios on the real runtime and report oracle disagreements")
+	traceIdx := flag.Int64("trace", -1, "execute this run index with a full trace and print it")
 	dethash := flag.Int("dethash", 0, "determinism mode: print 'index hash seq' for this many runs and exit")
 	replayTest := flag.Int("replaytest", 0, "determinism mode: record N runs, replay each by name, compare event-log hashes")
 	skip := flag.Int("skip", 0, "determinism mode: run this many other runs first (batch-position independence)")
@@ -191,6 +192,18 @@ func main() {
 		sc, _, _ := scenarioFor(uint64(*dumpSeed))
 		b, _ := json.MarshalIndent(sc, "", " ")
 		fmt.Println(string(b))
+		return
+	}
+	if *traceIdx >= 0 {
+		sc, _, _ := scenarioFor(uint64(*traceIdx))
+		res := Execute(sc, simrt.NewRandomChooser(sc.ChSeed, sc.Policy, false), true)
+		for _, e := range res.Trace {
+			fmt.Printf("%d %s %s %s %s\n", e.Seq, e.At, e.G, e.Kind, e.Obj)
+		}
+		fmt.Println("verdict:", res.Verdict, "unfinished:", res.Unfinished, "run errors:", res.RunErrs)
+		for _, v := range res.Viol {
+			fmt.Println("violation:", v.Prop, v.Oracle, v.Msg)
+		}
 		return
 	}
 	if *dethash > 0 {
